@@ -446,12 +446,19 @@ func check(prop, tier string) int {
 	partB := map[string]interface{}{}
 	supervise := func(self string, dir string, W int) {
 		var procs []*procState
-		for w := 0; w < W; w++ {
-			procs = append(procs, spawn(self, prop, tier, seed, w, W, 0, dir, false))
+		// at most maxLive workers at a time (part B of C18 uses many short-lived processes)
+		maxLive := 2 * runtime.NumCPU()
+		pending := 0
+		for ; pending < W && pending < maxLive; pending++ {
+			procs = append(procs, spawn(self, prop, tier, seed, pending, W, 0, dir, false))
 		}
 		// supervise
-		for len(procs) > 0 {
+		for len(procs) > 0 || pending < W {
 			var next []*procState
+			for len(procs) < maxLive && pending < W {
+				procs = append(procs, spawn(self, prop, tier, seed, pending, W, 0, dir, false))
+				pending++
+			}
 			for _, p := range procs {
 				select {
 				case err := <-p.done:
@@ -535,8 +542,9 @@ func check(prop, tier string) int {
 			bdir := filepath.Join(dir, "free")
 			os.MkdirAll(bdir, 0755)
 			tB := time.Now()
-			// three times as many (shorter-lived) processes: package-level state of ion-go is cold again in each
-			supervise(raceBin, bdir, 3*W)
+			// ten times as many (short-lived) processes: whatever ion-go initialises lazily per process is cold again in
+			// each of them, and the first task set of a process is the only one that can catch it being written
+			supervise(raceBin, bdir, 10*W)
 			spawnEnv = nil
 			freeIdx := s.Indices(tier)
 			os.Unsetenv("IONSIM_C18_MODE")
